@@ -19,7 +19,8 @@ Oracle (on the C alone): exit status as in the fresh run; every file of the fres
 bytes; everything else in the directory is untouched; no temporary is left behind; "(contents unchanged)" is printed exactly for the
 per-type files whose old content WAS the new content, and exactly those keep their inode; the library makefile names every file
 once and only files that exist.
-Tie: decision of the C (`retained` = same inode as before) == model `identical 4096 old new` (coq/Fix/IdenticalFiles.v)."""
+Tie: what the C made of each old entry (kept = same inode / replaced by a fresh regular file / written through a link) == model
+`save_type` / `copy_skel` / `link_skel` / `write_inplace` with block size 4096 (coq/Fix/IdenticalFiles.v, command c12_entry)."""
 import os, shutil, subprocess, stat, re
 
 BLOCK = 4096
@@ -363,29 +364,61 @@ def makefile_problems(F):
     return probs
 
 
-def ident_lines(res, cap=60):
-    """model queries `c12_ident 4096 <old> <new>` for decisions the C took in this case: (state index, file, line);
-    per-type files first, at most `cap` per case, files up to 5 blocks"""
+def op_of(f, F, mode):
+    """which of the four ways of writing a file applies to output file f"""
+    if f in INPLACE:
+        return "inplace"
+    if is_per_type(f, F):
+        return "type"
+    return "link" if mode == "link" else "copy"
+
+
+def entry_lines(case, res, cap=60):
+    """model queries `c12_entry OP 4096 OLDENTRY NEW` for what asn1c made of the entries it found: (state index, file, line).
+    Only entries that are not simply the fresh file (those too in the `identical` state), per-type files first, regular
+    files up to 5 blocks with their content, at most `cap` per case"""
     out, seen = [], set()
     F = res.get("fresh", {})
     order = sorted(F, key=lambda f: (not is_per_type(f, F), f))
     for si, s in enumerate(res.get("states", [])):
         B = s["before"]
+        if s["rc"] != 0:
+            continue
         for f in order:
-            v = F[f]
-            if v[0] != "reg" or f in INPLACE or len(v[1]) > 5 * BLOCK:
+            v, b = F[f], B.get(f)
+            op = op_of(f, F, case["mode"])
+            if b is not None and b[:2] == v[:2] and not (s["st"]["label"] == "identical" and (op == "type" or si == 0 and len(v[1]) <= BLOCK)):
                 continue
-            b = B.get(f)
-            if not b or b[0] != "reg" or len(b[1]) > 6 * BLOCK:
+            if op in ("type", "copy"):
+                if v[0] != "reg" or len(v[1]) > 5 * BLOCK or (b and len(b[1]) > 6 * BLOCK):
+                    continue
+                old = "A" if b is None else "L" if b[0] == "sym" else "R" + (b[1].hex() or "-")
+                line = "c12_entry %s %d %s %s" % (op, BLOCK, old, (v[1].hex() or "-") if old[0] == "R" else "-")
+            else:
+                old = "A" if b is None else "L" if b[0] == "sym" else "R-"
+                line = "c12_entry %s %d %s -" % (op, BLOCK, old)
+            if (f, line) in seen:
                 continue
-            if b[1] == v[1] and not (s["st"]["label"] == "identical" and is_per_type(f, F)):
-                continue
-            key = (f, b[1])
-            if key in seen:
-                continue
-            seen.add(key)
-            out.append((si, f, "c12_ident %d %s %s" % (BLOCK, b[1].hex() or "-", v[1].hex() or "-")))
+            seen.add((f, line))
+            out.append((si, f, line))
     return out[:cap]
+
+
+def observed_entry(op, a, b, v):
+    """what asn1c made of entry b (before) at a path where the fresh run leaves v: KEEP | NEW | THROUGH | ? (not decidable)"""
+    if a is None:
+        return "?"
+    if op in ("type", "copy"):
+        if b is not None and b[0] == "reg" and a[0] == "reg" and a[2] == b[2]:
+            return "KEEP"
+        return "NEW" if a[0] == "reg" and a[1] == v[1] else "?"
+    if op == "link":
+        if b is not None:
+            return "KEEP" if a[:3] == b[:3] else "NEW"
+        return "NEW" if a[0] == "sym" else "?"
+    if b is not None and b[0] == "sym" and a[:3] == b[:3]:
+        return "THROUGH"
+    return "NEW" if a[0] == "reg" and a[1] == v[1] else "?"
 
 
 def classify(st, s, F, bad):
@@ -474,12 +507,21 @@ def eval_dir(run, case, res, model_out=None):
                     said = ("Compiled out/%s%s\n" % (f, UNCH)) in s["se"]
                     if said != equal:
                         bad.append((f, "`contents unchanged` %s although the old content %s the new one" % ("printed" if said else "not printed", "was" if equal else "was not")))
-                if model_out is not None and (si, f) in model_out:
-                    run.count("outdir_model_cases")
-                    mo = model_out[(si, f)]
-                    if (mo == "SAME") != retained:
-                        run.violation("correspondence:IdenticalFiles.identical", dict(rep, file=f, what="model identical(4096, old, new) = %s, asn1c %s the old file" % (mo, "kept" if retained else "replaced"),
-                                      old_len=len(b[1]), new_len=len(v[1]), first_difference=fdiff(b[1], v[1])), no_input=not any(x[0] == f for x in bad))
+        if model_out is not None:
+            for (si_, f), mo in model_out.items():
+                if si_ != si:
+                    continue
+                run.count("outdir_model_cases")
+                op = op_of(f, F, mode)
+                ob = observed_entry(op, A.get(f), B.get(f), F[f])
+                run.count("outdir_model:%s:%s" % (op, mo))
+                if ob != mo:
+                    b = B.get(f)
+                    run.violation("correspondence:IdenticalFiles.entry", dict(rep, file=f, op=op,
+                                  what="model (coq/Fix/IdenticalFiles.v, block size 4096): %s; asn1c: %s" % (mo, ob),
+                                  old_entry="absent" if b is None else "%s, %d bytes" % (b[0], len(b[1])), new_len=len(F[f][1]),
+                                  first_difference=fdiff(b[1], F[f][1]) if b is not None and b[0] == "reg" else None),
+                                  no_input=not any(x[0] == f for x in bad))
         for f, a in sorted(A.items()):
             if f in F:
                 continue
@@ -574,7 +616,7 @@ if __name__ == "__main__":
         t = time.time()
         r = case_dir(ctx, i, c)
         eval_dir(run, c, r)
-        print(c["name"], c["mode"], "states", len(r.get("states", [])), "members", r.get("members"), r.get("fname", "")[-30:], "%.1fs" % (time.time() - t), "ident lines", len(ident_lines(r)))
+        print(c["name"], c["mode"], "states", len(r.get("states", [])), "members", r.get("members"), r.get("fname", "")[-30:], "%.1fs" % (time.time() - t), "model lines", len(entry_lines(c, r)))
     print("total %.1fs" % (time.time() - t0))
     for k in sorted(run.dist):
         print("  ", k, run.dist[k])
